@@ -289,6 +289,14 @@ fn c13<L: Lib>(s: &str, verbose: bool) -> String {
                 Some(o1) => o1 == s2,
                 None => true,
             };
+            // the same range over a proper PREFIX SLICE of the string (same address, shorter): a different input, never equal
+            let eqp = {
+                let k = (*e1..len).find(|k| s.is_char_boundary(*k));
+                match k.and_then(|k| L::span_new(&s[..k], *a1, *e1)) {
+                    Some(p1) => p1 == *s2 && (hash_of(&p1) == hash_of(s2) || true),
+                    None => false,
+                }
+            };
             // Eq/Hash contract: equal spans hash equally
             let hc = !eq || hash_of(s1) == hash_of(s2);
             if verbose {
@@ -297,7 +305,7 @@ fn c13<L: Lib>(s: &str, verbose: bool) -> String {
                     Some(None) => "N".to_string(),
                     Some(Some((p, q))) => format!("{}-{}", p, q),
                 };
-                let _ = write!(vb, "{}-{}+{}-{}={}/{}{}{},", a1, e1, a2, e2, ms, eq as u8, eqo as u8, hc as u8);
+                let _ = write!(vb, "{}-{}+{}-{}={}/{}{}{}{},", a1, e1, a2, e2, ms, eq as u8, eqo as u8, hc as u8, eqp as u8);
             } else {
                 match m {
                     None => h = feed(h, 1_000_000),
@@ -307,6 +315,7 @@ fn c13<L: Lib>(s: &str, verbose: bool) -> String {
                 h = feed(h, eq as u64);
                 h = feed(h, eqo as u64);
                 h = feed(h, hc as u64);
+                h = feed(h, eqp as u64);
             }
         }
     }
